@@ -146,3 +146,67 @@ fn item_to_json(item: &syn::Item) -> Value {
 pub fn file_to_json(f: &syn::File) -> Value {
     Value::Array(f.items.iter().map(item_to_json).collect())
 }
+
+/// By-value containment edges of every struct / enum / alias in the file: for each item, the list
+/// of (member, target ident, how) with how = "value" (directly or through Option), "box" or "vec".
+/// Reports only; the finite-size rule is applied by the Python model.
+pub fn containment_edges(f: &syn::File) -> Value {
+    let mut out = Map::new();
+    fn walk_items(items: &[syn::Item], out: &mut Map<String, Value>) {
+        for it in items {
+            match it {
+                syn::Item::Mod(m) => {
+                    if let Some((_, items)) = &m.content {
+                        walk_items(items, out);
+                    }
+                }
+                syn::Item::Struct(s) => {
+                    let mut edges = Vec::new();
+                    for (i, f) in s.fields.iter().enumerate() {
+                        let name = f.ident.as_ref().map(|i| i.to_string()).unwrap_or_else(|| i.to_string());
+                        type_edges(&f.ty, "value", &name, &mut edges);
+                    }
+                    out.insert(s.ident.to_string(), Value::Array(edges));
+                }
+                syn::Item::Enum(e) => {
+                    let mut edges = Vec::new();
+                    for v in &e.variants {
+                        for f in v.fields.iter() {
+                            type_edges(&f.ty, "value", &v.ident.to_string(), &mut edges);
+                        }
+                    }
+                    out.insert(e.ident.to_string(), Value::Array(edges));
+                }
+                syn::Item::Type(t) => {
+                    let mut edges = Vec::new();
+                    type_edges(&t.ty, "value", "=", &mut edges);
+                    out.insert(t.ident.to_string(), Value::Array(edges));
+                }
+                _ => {}
+            }
+        }
+    }
+    fn type_edges(t: &syn::Type, how: &str, member: &str, edges: &mut Vec<Value>) {
+        if let syn::Type::Path(p) = t {
+            if let Some(seg) = p.path.segments.last() {
+                let id = seg.ident.to_string();
+                let inner: Vec<&syn::Type> = match &seg.arguments {
+                    syn::PathArguments::AngleBracketed(a) => a
+                        .args
+                        .iter()
+                        .filter_map(|g| if let syn::GenericArgument::Type(t) = g { Some(t) } else { None })
+                        .collect(),
+                    _ => Vec::new(),
+                };
+                match (id.as_str(), inner.len()) {
+                    ("Option", 1) => type_edges(inner[0], how, member, edges),
+                    ("Vec", 1) => type_edges(inner[0], if how == "value" { "vec" } else { how }, member, edges),
+                    ("Box", 1) => type_edges(inner[0], if how == "value" { "box" } else { how }, member, edges),
+                    _ => edges.push(json!([member, id, how])),
+                }
+            }
+        }
+    }
+    walk_items(&f.items, &mut out);
+    Value::Object(out)
+}
